@@ -197,9 +197,9 @@ def run(tier, seed):
     # (0, maximum] is refused EVERY time it is presented
     import gen
     from skepticoin.datatypes import Output
-    for v in (0, DOC_MAX + 1, 2 ** 63, 2 ** 64 - 1):
+    for v in (0, DOC_MAX + 1, 2 ** 63, 2 ** 64 - 1, (DOC_MAX, 1), (DOC_MAX, DOC_MAX, DOC_MAX), (1, DOC_MAX)):
         t = gen.g_tx(ck.rng, nin=1, nout=1)
-        t.outputs = [Output(v, t.outputs[0].public_key)]
+        t.outputs = [Output(x_, t.outputs[0].public_key) for x_ in (v if isinstance(v, tuple) else (v,))]
         verdicts = []
         for k in range(3):
             try:
@@ -211,8 +211,39 @@ def run(tier, seed):
                 verdicts.append(False)
         ck.case(('tx-range', v), kind='tx-range')
         if any(verdicts):
-            ck.violation('range-limit', 'a transaction with an output of %d passes transaction validation on presentation #%d'
+            ck.violation('range-limit', 'a transaction with outputs %s passes transaction validation on presentation #%d'
                          % (v, verdicts.index(True) + 1), {'kind': 'range', 'value': v, 'presentations': verdicts})
+    # the schedule is a function of the height alone, also when two threads (miner, validator) ask at the same time for
+    # heights on both sides of a halving: interpreter switch interval forced down, every answer compared
+    import sys
+    import threading
+    old_si = sys.getswitchinterval()
+    sys.setswitchinterval(1e-6)
+    wrong = []
+    try:
+        def hammer(hs):
+            for k in range(60000 if tier == 'quick' else 600000):
+                h = hs[k & 1]
+                v = f(h)
+                if v != spec(h):
+                    wrong.append((h, v))
+                    return
+        ths = [threading.Thread(target=hammer, args=((DOC_INTERVAL - 1, DOC_INTERVAL),)),
+               threading.Thread(target=hammer, args=((DOC_INTERVAL, 2 * DOC_INTERVAL + 5),)),
+               threading.Thread(target=hammer, args=((3, 40 * DOC_INTERVAL),))]
+        for t_ in ths:
+            t_.start()
+        for t_ in ths:
+            t_.join()
+    finally:
+        sys.setswitchinterval(old_si)
+    ck.case(('threads',), kind='three-threads-across-halvings')
+    after = [(h, f(h)) for h in (0, DOC_INTERVAL - 1, DOC_INTERVAL, 2 * DOC_INTERVAL, 5)]
+    if wrong or any(v != spec(h) for h, v in after):
+        h_, v_ = wrong[0] if wrong else [x for x in after if x[1] != spec(x[0])][0]
+        ck.violation('subsidy-value', 'with three threads asking for heights on both sides of halvings, get_block_subsidy(%d) '
+                     'returned %d (schedule: %d)%s' % (h_, v_, spec(h_), '' if wrong else ' -- and keeps doing so afterwards'),
+                     {'kind': 'threads', 'height': h_, 'got': v_})
     if tier == 'thorough':
         n = 31 * DOC_INTERVAL
         step = n // 64 + 1
